@@ -173,8 +173,15 @@ def anchor_ties(pid):
                 files = d['anchors']['files']
     except Exception:
         return [], []
-    trs, mods = [], []
+    # the files a property's behaviour passes through: its anchors and what those compute through (ties.json: _deps)
+    deps = ties.get('_deps', {})
+    closure = []
     for f in files:
+        for g in [f] + [x for x in deps.get(f, []) if isinstance(x, str)]:
+            if g not in closure:
+                closure.append(g)
+    trs, mods = [], []
+    for f in closure:
         for t, ms in ties.get(f, []):
             if os.path.exists(os.path.join(VERIF, 'tools', t + '.py')) and t not in trs:
                 trs.append(t)
